@@ -6,6 +6,13 @@
 #[verifier::external_body]
 pub struct ExIoError(std::io::Error);
 
+#[verifier::external_type_specification]
+#[verifier::external_body]
+pub struct ExPathBuf(std::path::PathBuf);
+#[verifier::external_type_specification]
+#[verifier::external_body]
+pub struct ExPath(std::path::Path);
+
 /// One event of the ghost output history.  `Flush(s)`: `Painter::emit` wrote the
 /// whole output buffer `s`.  `Text(s, ln)`: a direct `write!`/`writeln!` of text `s`
 /// (`ln` = followed by a newline).
